@@ -16,6 +16,7 @@ package main
 // This file also holds the three helpers shared by the C05 / C06 / C12 drivers (c05CaseRng, c05RunWith, c05Emit).
 
 import (
+	"os"
 	"crypto/x509"
 	"fmt"
 	"math/big"
@@ -283,7 +284,30 @@ func c05SignerMods() []c05Mod {
 			s.PckCrlHdrRoles = []string{"interFake", "root"}
 		}}
 	}
+	// two trusted roots with the same name (roll-over, production + pre-production): the chain is under root A, the collateral
+	// and the Root CA CRL are authentic under root B — which says nothing about what root A revoked
+	twoRoots := c05Mod{"signer", "rootcrl-signer:other-trusted-root-with-the-same-name(collateral-under-it)", false, func(s *world.Spec, rng *rand.Rand) {
+		addLookalike(rng, s)
+		s.Pool = []string{"root", "rootB"}
+		s.TcbResp.SignKey, s.TcbResp.HdrRoles = 9, []string{"signerB", "rootB"}
+		s.QeResp.SignKey, s.QeResp.HdrRoles = 9, []string{"signerB", "rootB"}
+		for i := range s.RootCrls {
+			s.RootCrls[i].IssuerOf, s.RootCrls[i].SignKey = "rootB", 6
+		}
+	}}
+	// the QE-Identity response is signed by a RE-ISSUED certificate of the TCB signer (same key, same names, other serial) that the
+	// Root CA CRL lists; the TCB-Info response carries the good one
+	reissued := c05Mod{"serials", "rootcrl-lists:reissued-qe-identity-signer(same-key-and-names-as-the-tcb-info-signer)", false, func(s *world.Spec, rng *rand.Rand) {
+		c := *s.Cert("signer")
+		c.Role, c.Serial = "signerReissued", new(big.Int).Add(s.Cert("signer").Serial, big.NewInt(int64(1+rng.IntN(1000))))
+		s.Certs = append(s.Certs, &c)
+		s.QeResp.HdrRoles, s.QeResp.SignKey = []string{"signerReissued", "root"}, s.Cert("signer").Key
+		for i := range s.RootCrls {
+			s.RootCrls[i].Revoked = append(s.RootCrls[i].Revoked, c.Serial)
+		}
+	}}
 	return []c05Mod{
+		twoRoots, reissued,
 		hdrFake("self-signed", true), hdrFake("signed-by-a-foreign-key", false),
 		pck("other-ca-key(root-signs)", 1, "inter"), pck("foreign-key-same-name", 7, "inter"), pck("right-key-name-of-root", 2, "root"),
 		pck("right-key-name-of-tcb-signer", 2, "signer"), pck("right-key-same-cn-other-org", 2, "interOrg"),
@@ -467,6 +491,9 @@ func c05Run(r *hx.Run, w *world.World, gc, cr, harmless bool, tags ...string) vR
 	clock := time.Now()
 	vr := runVerify(w)
 	fail := c05Oracle(w, vr)
+	if d := os.Getenv("TDX_DEBUG_FAULT"); d != "" && strings.Contains(s.Fault, d) {
+		fmt.Fprintf(os.Stderr, "DEBUG %s gc=%v cr=%v -> %s err=%v oracle=%q\n", s.Fault, gc, cr, vr.obs, vr.err, fail)
+	}
 	if fail == "" && s.Honest && !vr.accepted {
 		// non-vacuity: the premise of the property (authentic, clean CRLs obtained) must lead to acceptance
 		fail = "non-vacuity: world with authentic CRLs that list none of the four serials rejected: " + hx.Trunc(fmt.Sprint(vr.err), 160)
@@ -530,5 +557,32 @@ func c05(r *hx.Run) {
 	}
 	// what an earlier call fetched must not stand in for this call's CRLs (or for the missing collateral of a cr-only call)
 	cvPairHistories(r, 0x2205, "C05", 1)
+	// … nor what an earlier call AUTHENTICATED: the same world verified again after an endpoint started serving a CRL with the
+	// same issuer name and CRL number, signed by a foreign key and no longer listing anything (fresh options each time)
+	for i := 0; i < 8*reps; i++ {
+		rng := c05CaseRng(r, 0x55, i)
+		s := honestSpec(rng)
+		revokedNow := i%2 == 1
+		w := world.Build(s)
+		c05Run(r, w, true, true, true, "dim:reissue", "reissue:first-call(authentic)")
+		which := []string{"pck", "root"}[(i/2)%2]
+		if which == "pck" {
+			c := w.Spec.PckCrl
+			c.SignKey = 7
+			if revokedNow {
+				c.Revoked = nil // the forgery hides what the authentic list would say by now
+			}
+			w.ReplacePckCrl(c)
+		} else {
+			c := w.Spec.RootCrls[0]
+			c.SignKey = 7
+			if revokedNow {
+				c.Revoked = nil
+			}
+			w.ReplaceRootCrl(0, c)
+		}
+		w.Spec.Fault = "reissue:" + which + "-crl-forged-with-the-same-number"
+		c05Run(r, w, true, true, false, "dim:reissue", "reissue:second-call("+which+"-crl-forged-same-number)")
+	}
 	r.Note("grid", fmt.Sprintf("%d single faults x %d repetitions x 4 option combinations + %d random combinations", len(grid), reps, combos))
 }
